@@ -124,6 +124,7 @@ THEOREM_NAMES = [
 QUICK_PAIRS, THOROUGH_PAIRS = 5000, 300000
 SHARD = 2500            # pairs per shard
 ESS_RATIO = 0.35        # essence cases per diff pair
+LIFE_PER_PAIRS = 8      # one life case (creation -> quiet -> edit -> quiet through the real processing core) per so many diff pairs
 MULTI_RATIO = 0.3       # dedicated MultiDiffBaseStorage cases per essence case (beside the ~18 % multi among those)
 
 # ------------------------------------------------------------------------------------------------
@@ -740,6 +741,7 @@ SIG_ORDER = {"site": "MultiDiffBaseStorage.build", "shape": "the essence depends
 
 
 FAIL_PER_CLASS = 5
+CASE_KINDS = ("diff", "essence", "sequence", "cycle", "life")
 
 
 class Out:
@@ -1149,6 +1151,15 @@ def eval_ess_case(K: dict, case: dict, out: Out) -> None:
                             dict(mp["metadata"]["annotations"]), dict(replay, marker_prefix=pfx_, patch_annotations=pann))
     if res[0] != "ok":
         out.keys.add(digest(["ess-err", case["diffbase"], case["progress"], extra, body]))
+        # an exception is a verdict: an object whose essence cannot be built is never processed (no handler of any kind
+        # runs for it). Only bodies with malformed metadata (not a mapping: impossible on a Kubernetes API) are left out.
+        if wellformed_meta(body):
+            exn = {v: k.__name__ for k, v in ERRS.items()}[res[1]]
+            sig = raise_signature(K, ds, ps, body, extra, exn, "DiffBaseStorage.build/ProgressStorage.clear")
+            out.count("essence_raises", "explained by F13 (field through a non-mapping)" if sig == SIG_F13 else f"{exn}: unexplained")
+            out.fail("oracle", f"the essence of a well-formed object cannot be built: {exn} (the object is never processed)", replay, sig)
+        else:
+            out.count("essence_raises", "malformed metadata (not judged)")
         return
     E = res[1]
     metab = body.get("metadata") if isinstance(body.get("metadata"), dict) else {}
@@ -1598,10 +1609,19 @@ def eval_loop_cases(K: dict, cases: list[dict], out: Out) -> None:
             calls: list = []
             try:
                 ctxv = await _run_cycle(K, E, case, calls)
-            except tuple(ERRS) as ex:
+            except Exception as ex:  # noqa: BLE001 — the code's own exception is a verdict, the harness's is re-raised
+                frame = kopf_frame(ex)
+                if frame is None:
+                    raise
                 out.count("cycle", f"raised {type(ex).__name__}")
+                extras = [parse_field(h["field"]) for h in case["handlers"] if h["field"]]
+                sig = SIG_F13 if isinstance(ex, TypeError) and any(through_non_mapping(b, f) for f in extras for b in (case["old"], case["new"])) \
+                    else {"site": frame, "shape": f"raises {type(ex).__name__} on a well-formed body"}
+                out.fail("oracle", f"the real processing cycle raised {type(ex).__name__} in {frame}: the object cannot be processed",
+                         {"kind": "cycle", "old": case["old"], "new": case["new"], "handlers": case["handlers"],
+                          "lifecycle": case["lifecycle"], "lseed": case["lseed"]}, sig)
                 continue
-            _judge_cycle(K, case, ctxv, calls, out)
+            guarded(out, "cycle", case, lambda: _judge_cycle(K, case, ctxv, calls, out))
     asyncio.run(main())
 
 
@@ -1642,7 +1662,627 @@ def _judge_cycle(K: dict, case: dict, ctxv: dict, calls: list, out: Out) -> None
 
 
 # ------------------------------------------------------------------------------------------------
+# the LIFE of one object under the real processing core: creation -> quiet -> edit -> quiet.
+# Every event goes through the real `process_resource_causes` of ONE registry/settings/memory, with generated
+# storages (not only the defaults), handlers of several kinds (on.create / on.update / on.field, with and without
+# field=, on.event with field=, handlers of ANOTHER resource); every cycle's patch is applied with the oracle's own
+# RFC 7386 merge and comes back as the next event, until nothing is sent any more. Judged (white-box hunt, m1-m9):
+#   * WHICH handlers are called — exactly those whose (field of the) essence changed, each once;
+#   * the kwargs of every call (old / new / diff, whole or narrowed), also on creation (old is None);
+#   * what the cycle leaves behind: the stored last-handled state IS the essence of the object, own writes did
+#     not change the essence, and an event without an essential change (the object again, a system-metadata bump,
+#     a foreign status write, another Kopf operator's write) calls nobody and sends nothing;
+#   * an exception of the real code is a verdict (the object cannot be processed), never a skipped case.
+
+SIG_F12 = {"site": "processing.process_changing_cause/registries._matches_field_changes",
+           "shape": "Python == on old/new: a bool<->number change is an update that is never recorded as handled, and no change for a field handler"}
+SIG_F13 = {"site": "dicts.cherrypick/dicts.remove",
+           "shape": "a handler's or storage's field passes through a non-mapping value: TypeError, the object is never processed"}
+SIG_SELECT = {"site": "registries.match/causes.detect_changing_cause",
+              "shape": "a handler whose (field of the) essence changed is not called, or one whose did not change is called"}
+SIG_SETTLE = {"site": "processing.process_changing_cause",
+              "shape": "after a finished cycle the stored last-handled state is not the essence of the object"}
+SIG_QUIET = {"site": "processing._detect_causes", "shape": "an event without an essential change calls handlers or sends a patch"}
+SIG_OWNVIS = {"site": "processing._detect_causes", "shape": "the framework's own writes of a real cycle change the essence"}
+
+LIFE_DIFFBASE = [{"cls": "annotations", "kw": {}}, {"cls": "annotations", "kw": {}}, {"cls": "annotations", "kw": {}},
+                 {"cls": "annotations", "kw": {"prefix": "my-op.example.com"}},
+                 {"cls": "annotations", "kw": {"prefix": "kopf.dev", "key": "lhc", "v1": False}},
+                 {"cls": "annotations", "kw": {"ignored_fields": ["spec.ignored"]}},
+                 {"cls": "status", "kw": {}}, {"cls": "status", "kw": {"field": "status.lhc", "ignored_fields": ["spec.ignored"]}},
+                 {"cls": "multi", "storages": [{"cls": "status", "kw": {"field": "status.diff-base"}}, {"cls": "annotations", "kw": {}}]},
+                 {"cls": "multi", "storages": [{"cls": "annotations", "kw": {"prefix": "my-op.example.com"}}, {"cls": "status", "kw": {}}]}]
+LIFE_PROGRESS = [{"cls": "smart", "kw": {}}, {"cls": "smart", "kw": {}}, {"cls": "smart", "kw": {}},
+                 {"cls": "smart", "kw": {"prefix": "my-op.example.com"}},
+                 {"cls": "annotations", "kw": {"prefix": "my-op.example.com"}},
+                 {"cls": "annotations", "kw": {"prefix": "kopf.dev", "verbose": True}},
+                 {"cls": "status", "kw": {}}, {"cls": "status", "kw": {"name": "myop"}},
+                 {"cls": "status", "kw": {"field": "status.progress", "touch_field": "status.dummy"}},
+                 {"cls": "multi", "storages": [{"cls": "annotations", "kw": {}}, {"cls": "status", "kw": {}}]}]
+LIFE_FIELDS = [None, None, None, "spec", "spec.field", "spec.n", "spec.flag", "spec.a", "spec.a.b", "spec.list", "metadata.labels",
+               "metadata.labels.app", "spec.missing.deep", ["spec", "k.dot"], "data", "status.phase", "status.phase", "status",
+               "status.kopf", "status.conditions"]
+LIFE_OTHER_FIELDS = ["status", "spec.zzz", "metadata.labels", "status.phase", "spec"]
+LIFE_ANNOTATIONS = [{}, {}, {"plain": "v"}, {"example.com/owner": "me", "kubectl.kubernetes.io/last-applied-configuration": "{}\n"},
+                    {"other.io/kopf-managed": "yes", "other.io/state": "{\"a\":1}"}, {"note": "значение"}]
+FALSY = [0, False, "", {}, []]
+LIFE_PROBES = ["same", "sysmeta", "foreign-status", "other-operator"]
+OTHER_RESOURCE = ("kopf.dev", "v1", "others")
+LIFE_MODEL_TIE = False     # switched on with the model ops C04.detect / C04.selected / C04.after (Model/C04_Cycle.lean)
+
+
+def gen_life_case(rng: random.Random) -> dict:
+    spec: dict[str, Any] = {"field": gen_value(rng, 3), "n": rng.choice(INTS), "flag": rng.choice([True, False, 0, 1]),
+                            "a": {"b": gen_scalar(rng), "c": rng.choice(INTS)},
+                            "list": [gen_scalar(rng) for _ in range(rng.choice([0, 1, 2]))], "k.dot": gen_scalar(rng), "ignored": "x"}
+    for k in ("n", "flag", "a", "list", "field"):
+        r = rng.random()
+        if r < 0.12:
+            del spec[k]                                          # absent now: may APPEAR with the edit
+        elif r < 0.24:
+            spec[k] = rng.choice(FALSY)                          # present and falsy from the start
+    if rng.random() < 0.04:
+        spec["a"] = rng.choice(["str", 5, [], None])             # a non-mapping on the way to spec.a.b (finding F13)
+    meta: dict[str, Any] = {"name": "obj", "namespace": "ns", "uid": "u1", "resourceVersion": "7", "generation": 1,
+                            "creationTimestamp": "2020-01-01T00:00:00Z", "labels": {"app": rng.choice(["a", "b"]), "tier": "x"}}
+    if rng.random() < 0.15:
+        del meta["labels"]
+    anns = dict(rng.choice(LIFE_ANNOTATIONS))
+    if anns:
+        meta["annotations"] = anns
+    body: dict[str, Any] = {"apiVersion": "kopf.dev/v1", "kind": rng.choice(["KopfExample", "KopfExample", "ReplicaSet"]),
+                            "metadata": meta, "spec": spec, "data": {"k": rng.choice(UNI_STRS)}}
+    if body["kind"] == "ReplicaSet" and rng.random() < 0.7:
+        meta["ownerReferences"] = [{"kind": "Deployment", "name": "d", "uid": "d1", "apiVersion": "apps/v1", "controller": True}]
+    if rng.random() < 0.65:
+        st: dict[str, Any] = {"phase": rng.choice(["Pending", "Running", "", 0]), "other": 1}
+        if rng.random() < 0.25:
+            st["kopf"] = {"progress": {"gone_fn": {"started": "2020-01-01T00:00:00", "retries": 0}}, "dummy": "2020-01-01"}
+        if rng.random() < 0.25:
+            st["conditions"] = [{"type": "Ready", "status": "True"}]
+        body["status"] = st
+    # ---- the edit (what a user / another controller does to the object between the two handling cycles) -------
+    tags: list[str] = []
+    edit: dict[str, Any] = {}
+    r = rng.random()
+    if r < 0.10:
+        f = spec.get("flag")
+        if isinstance(f, bool):
+            kind, flipped = "bool<->number only", int(f)
+        elif isinstance(f, int) and f in (0, 1):
+            kind, flipped = "bool<->number only", bool(f)
+        else:
+            kind, flipped = "payload", True
+        edit["spec"] = dict(spec, flag=flipped)
+    elif r < 0.22:
+        kind = "status only"
+        edit["status"] = {"phase": rng.choice(["Running", "Failed", "", None])}
+    elif r < 0.27:
+        kind = "nothing essential"
+        edit["status"] = {"other": 2}
+    elif r < 0.40:
+        kind = "a field appears"
+        absent = [k for k in ("n", "flag", "a", "list", "field", "missing") if k not in spec] or ["missing"]
+        k = rng.choice(absent)
+        v: Any = rng.choice(FALSY + [1, "v", True])
+        edit["spec"] = dict(spec, **{k: ({"deep": v} if k == "missing" else {"b": v} if k == "a" and rng.random() < 0.5 else v)})
+    elif r < 0.48:
+        kind = "a field disappears"
+        present = [k for k in ("n", "flag", "a", "list", "field") if k in spec] or ["k.dot"]
+        edit["spec"] = {k: v for k, v in spec.items() if k != rng.choice(present)}
+    else:
+        kind = "payload"
+        new_spec, new_data, new_labels = copy.deepcopy(spec), copy.deepcopy(body["data"]), copy.deepcopy(meta.get("labels", {}))
+        for _ in range(rng.choice([1, 2, 2, 3])):
+            root = rng.choice(["spec", "spec", "spec", "data", "labels"])
+            if root == "labels":
+                new_labels = mutate(rng, new_labels, tags)
+                new_labels = {k: v for k, v in new_labels.items() if isinstance(v, str)} if isinstance(new_labels, dict) else {"app": "c"}
+            elif root == "data":
+                new_data = mutate(rng, new_data, tags)
+                new_data = new_data if isinstance(new_data, dict) else {"k": "v2"}
+            else:
+                new_spec = mutate(rng, new_spec, tags)
+                new_spec = new_spec if isinstance(new_spec, dict) else {"replaced": True}
+        edit.update({"spec": new_spec, "data": new_data, "labels": new_labels})
+        if rng.random() < 0.2:
+            edit["status"] = {"phase": "Running"}
+    hs: list[dict] = []
+    for i in range(rng.choice([1, 2, 3, 3, 4, 5])):
+        deco = rng.choice(["create", "update", "update", "field", "field"])
+        f = rng.choice(LIFE_FIELDS)
+        if deco == "field" and f is None:
+            f = rng.choice(["spec", "spec.flag", "spec.n"])
+        hs.append({"id": f"h{i}", "res": "main", "deco": deco, "field": f})
+    for i in range(rng.choice([0, 0, 1, 2])):
+        hs.append({"id": f"o{i}", "res": "other", "deco": rng.choice(["update", "field", "event", "create"]),
+                   "field": rng.choice(LIFE_OTHER_FIELDS)})
+    if rng.random() < 0.25:
+        hs.append({"id": "ev", "res": "main", "deco": "event", "field": rng.choice([None, "status.phase", "spec.n", "status.other"])})
+    return {"kind": "life", "diffbase": copy.deepcopy(rng.choice(LIFE_DIFFBASE)), "progress": copy.deepcopy(rng.choice(LIFE_PROGRESS)),
+            "body": body, "edit": edit, "edit_kind": kind, "handlers": hs,
+            "lifecycle": rng.choice(["all_at_once", "all_at_once", "asap", "shuffled", "one_by_one"]),
+            "probes": [rng.choice(LIFE_PROBES), rng.choice(LIFE_PROBES)], "lseed": rng.getrandbits(32)}
+
+
+ABSENT = "\0absent"       # a marker no generated value equals
+
+
+def resolve_abs(d: Any, path: list) -> Any:
+    for k in path:
+        if not isinstance(d, dict) or k not in d:
+            return ABSENT
+        d = d[k]
+    return d
+
+
+def field_differs(eo: Any, en: Any, f: list) -> bool:
+    """Does the value at the field differ between two essences, as JSON (absent is not null, true is not 1)?"""
+    a, b = resolve_abs(eo, f), resolve_abs(en, f)
+    if a is ABSENT or b is ABSENT:
+        return not (a is ABSENT and b is ABSENT)
+    return not strict_eq(a, b)
+
+
+def through_non_mapping(body: Any, path: list) -> bool:
+    """Is some proper prefix of the path present in the body with a non-mapping value? (dicts.resolve without a default
+    and dicts.remove raise TypeError exactly then: the class of finding F13)"""
+    cur = body
+    for k in path[:-1]:
+        if not isinstance(cur, dict) or k not in cur:
+            return False
+        cur = cur[k]
+        if not isinstance(cur, dict):
+            return True
+    return False
+
+
+def storage_fields(K: dict, ds: Any, ps: Any) -> list[list[str]]:
+    """the status-like locations the storages themselves remove with dicts.remove (own fields, touch fields, ignored fields)."""
+    return [p for p in ignored_paths(K, ds) + status_clean_paths(K, ps) if p]
+
+
+def wellformed_meta(body: Any) -> bool:
+    m = body.get("metadata") if isinstance(body, dict) else None
+    if "metadata" in body and not isinstance(m, dict):
+        return False
+    m = m or {}
+    return all(isinstance(m.get(k, {}), dict) for k in ("labels", "annotations")) and \
+        isinstance(m.get("ownerReferences", []), list) and all(isinstance(o, dict) and "kind" in o for o in m.get("ownerReferences", []))
+
+
+def raise_signature(K: dict, ds: Any, ps: Any, body: Any, extra: list, ex_name: str, where: str) -> dict:
+    """Which open finding (if any) can explain that the real code raised on a well-formed body."""
+    if ex_name == "TypeError" and any(through_non_mapping(body, parse_field(p)) for p in list(extra) + storage_fields(K, ds, ps)):
+        return SIG_F13
+    return {"site": where, "shape": f"raises {ex_name} on a well-formed body"}
+
+
+def kopf_frame(ex: BaseException) -> str | None:
+    """module.function of the innermost frame if it lies in kopf's sources (then the exception is the code's, not the harness's)."""
+    import traceback
+    tb = traceback.extract_tb(ex.__traceback__)
+    if not tb:
+        return None
+    last = tb[-1]
+    fn = last.filename.replace("\\", "/")
+    if "/kopf/" not in fn or "/harness/" in fn:
+        return None
+    return fn.split("/kopf/", 1)[1].rsplit(".", 1)[0].replace("/", ".") + "." + last.name
+
+
+def apply_life_edit(body: dict, edit: dict) -> dict:
+    nb = copy.deepcopy(body)
+    for k in ("spec", "data"):
+        if k in edit:
+            nb[k] = copy.deepcopy(edit[k])
+    if "labels" in edit:
+        if edit["labels"]:
+            nb["metadata"]["labels"] = copy.deepcopy(edit["labels"])
+        else:
+            nb["metadata"].pop("labels", None)
+    if "status" in edit:
+        st = nb.get("status") if isinstance(nb.get("status"), dict) else {}
+        st = dict(st)
+        for k, v in edit["status"].items():
+            if v is None:
+                st.pop(k, None)
+            else:
+                st[k] = v
+        if st:
+            nb["status"] = st
+        else:
+            nb.pop("status", None)
+    return bump(nb)
+
+
+def bump(body: dict) -> dict:
+    nb = copy.deepcopy(body)
+    nb["metadata"]["resourceVersion"] = str(int(nb["metadata"].get("resourceVersion", "0")) + 1)
+    return nb
+
+
+def apply_probe(K: dict, body: dict, probe: str, own_extras: list) -> tuple[dict, str]:
+    """An event that carries NO essential change."""
+    nb = bump(body)
+    if probe == "sysmeta":
+        m = nb["metadata"]
+        m["generation"] = int(m.get("generation", 1)) + 1
+        m["managedFields"] = list(m.get("managedFields", [])) + [{"manager": "kubectl", "operation": "Update", "fieldsV1": {"f:spec": {}}}]
+        return nb, probe
+    if probe == "foreign-status" and not any(overlaps(x, ["status", "foreign"]) for x in own_extras):
+        st = dict(nb.get("status") if isinstance(nb.get("status"), dict) else {})
+        st["foreign"] = {"n": int((st.get("foreign") or {}).get("n", 0)) + 1}
+        nb["status"] = st
+        return nb, probe
+    if probe == "other-operator":
+        B, P = K["bodies"].Body, K["patches"].Patch
+        ods = K["diffbase"].AnnotationsDiffBaseStorage(prefix="other-op.example.org")
+        ops = K["progress"].AnnotationsProgressStorage(prefix="other-op.example.org")
+        patch = P()
+        ods.store(body=B(nb), patch=patch, essence=ops.clear(essence=ods.build(body=B(nb))))
+        ops.touch(body=B(nb), patch=patch, value="2020-01-01T00:00:00")
+        ops.store(key="their_fn", record={"started": "2020-01-01T00:00:00", "retries": 1}, body=B(nb), patch=patch)
+        return merge_patch(nb, json.loads(json.dumps(dict(patch)))), probe
+    return nb, "same"
+
+
+class _Life:
+    """One registry / settings / memory: the operator's core for one object."""
+
+    def __init__(self, K: dict, E: dict, case: dict) -> None:
+        import logging
+        kopf = E["kopf"]
+        self.K, self.E, self.case = K, E, case
+        self.registry = E["registries"].OperatorRegistry()
+        self.settings = E["configuration"].OperatorSettings()
+        self.settings.posting.enabled = False
+        self.settings.persistence.diffbase_storage = build_diffbase(K, case["diffbase"])
+        self.settings.persistence.progress_storage = build_progress(K, case["progress"])
+        self.resource = E["references"].Resource("kopf.dev", "v1", "kopfexamples", namespaced=True)
+        self.calls: list[dict] = []
+        self.phase = "?"
+        self.cycle_no = 0
+        self.memory = E["inventory"].ResourceMemory()
+        self.logger = logging.getLogger("verif.c04.life")
+        self.logger.setLevel(logging.CRITICAL)
+        self.lifecycle = getattr(E["lifecycles"], case["lifecycle"])
+
+        def mk(hid: str):
+            async def fn(old, new, diff, **_: Any) -> None:
+                self.calls.append({"id": hid, "phase": self.phase, "cycle": self.cycle_no, "old": copy.deepcopy(old),
+                                   "new": copy.deepcopy(new), "diff": canon_items(diff)})
+            fn.__name__ = hid
+            return fn
+
+        def mk_event(hid: str):
+            async def fn(**_: Any) -> None:
+                return None
+            fn.__name__ = hid
+            return fn
+        for h in case["handlers"]:
+            f = tuple(h["field"]) if isinstance(h["field"], list) else h["field"]
+            res = ("kopf.dev", "v1", "kopfexamples") if h["res"] == "main" else OTHER_RESOURCE
+            kw: dict[str, Any] = {"id": h["id"], "registry": self.registry}
+            if f is not None:
+                kw["field"] = f
+            if h["deco"] == "event":
+                kopf.on.event(*res, **kw)(mk_event(h["id"]))
+            else:
+                getattr(kopf.on, h["deco"])(*res, **kw)(mk(h["id"]))
+
+    async def event(self, body: dict) -> tuple[dict | None, BaseException | None]:
+        """One real processing cycle for one event; returns the patch as it goes over the wire."""
+        B, P = self.K["bodies"].Body, self.K["patches"].Patch
+        patch = P()
+        self.cycle_no += 1
+        try:
+            await self.E["processing"].process_resource_causes(
+                lifecycle=self.lifecycle, indexers=self.E["indexing"].OperatorIndexers(), registry=self.registry,
+                settings=self.settings, resource=self.resource, raw_event={"type": "MODIFIED", "object": body}, body=B(body),
+                patch=patch, memory=self.memory, local_logger=self.logger, event_logger=self.logger, stream_pressure=None,
+                operator_paused=None, consistency_time=None)
+        except Exception as ex:  # noqa: BLE001 — the code's own exceptions are a verdict; the harness's are re-raised by the caller
+            return None, ex
+        return json.loads(json.dumps(dict(patch))), None
+
+    async def settle(self, body: dict, phase: str, limit: int) -> dict:
+        """Events until nothing is sent any more (every patch comes back as the next event)."""
+        self.phase = phase
+        cycles = 0
+        patches: list = []
+        while True:
+            pj, ex = await self.event(body)
+            cycles += 1
+            if ex is not None:
+                return {"body": body, "cycles": cycles, "raised": ex, "patches": patches, "settled": False}
+            if not pj:
+                return {"body": body, "cycles": cycles, "raised": None, "patches": patches, "settled": True}
+            patches.append(pj)
+            body = bump(merge_patch(body, pj))
+            if cycles >= limit:
+                return {"body": body, "cycles": cycles, "raised": None, "patches": patches, "settled": False}
+
+
+def eval_life_cases(K: dict, cases: list[dict], out: Out) -> None:
+    import asyncio
+    E = _loop_env()
+
+    async def main() -> None:
+        for case in cases:
+            try:
+                await _eval_life(K, E, case, out)
+            except Exception as ex:  # noqa: BLE001 — the code's own exception (outside a processing cycle) is a verdict too
+                frame = kopf_frame(ex)
+                if frame is None:
+                    raise
+                out.count("raised_in_kopf", f"life: {type(ex).__name__} in {frame}")
+                out.fail("oracle", f"the real code raised {type(ex).__name__} in {frame} ({str(ex)[:120]}): the object cannot be processed",
+                         {k: v for k, v in case.items()}, {"site": frame, "shape": f"raises {type(ex).__name__} on a generated life case"})
+    asyncio.run(main())
+
+
+async def _eval_life(K: dict, E: dict, case: dict, out: Out) -> None:
+    replay = {k: case[k] for k in ("kind", "diffbase", "progress", "body", "edit", "edit_kind", "handlers", "lifecycle", "probes", "lseed")
+              if k in case}
+    random.seed(case["lseed"])                         # lifecycles.shuffled/randomized use the global PRNG
+    hs_main = [h for h in case["handlers"] if h["res"] == "main"]
+    changing = [h for h in hs_main if h["deco"] != "event"]
+    own_extras = [parse_field(h["field"]) for h in hs_main if h["field"]]
+    dsf, psf = build_diffbase(K, case["diffbase"]), build_progress(K, case["progress"])      # fresh storages: the oracle's reference
+    mcfg = model_cfg(K, dsf, psf)
+    life = _Life(K, E, case)
+    out.evals += 1
+    out.count("life_diffbase", case["diffbase"]["cls"] + ("" if not case["diffbase"].get("kw") else " (configured)"))
+    out.count("life_progress", case["progress"]["cls"] + ("" if not case["progress"].get("kw") else " (configured)"))
+    out.count("life_lifecycle", case["lifecycle"])
+    out.count("life_edit", case.get("edit_kind", "corpus"))
+    for h in case["handlers"]:
+        out.count("life_handler_kind", f"@on.{h['deco']}" + ("(field=…)" if h["field"] else "") + (" of another resource" if h["res"] != "main" else ""))
+    out.count("life_changing_handlers", min(len(changing), 6))
+    limit = 2 * len(changing) + 6
+
+    def essence_of(body: dict) -> list:
+        return real_essence(K, dsf, psf, body, own_extras)
+
+    def fetched_of(body: dict) -> Any:
+        old = dsf.fetch(body=K["bodies"].Body(body))
+        return psf.clear(essence=old) if old is not None else None
+
+    def raised(where: str, ex: BaseException, body: dict, rp: dict) -> None:
+        frame = kopf_frame(ex)
+        if frame is None:
+            raise ex                                    # not the code's exception: a harness error, not a verdict
+        sig = raise_signature(K, dsf, psf, body, own_extras, type(ex).__name__, frame)
+        out.count("life_outcome", f"{where}: raised {type(ex).__name__}" + (" (F13)" if sig == SIG_F13 else ""))
+        out.fail("oracle", f"{where}: the real processing cycle raised {type(ex).__name__} in {frame}: the object cannot be "
+                           f"processed, none of its changes is handled ({str(ex)[:120]})", dict(rp, body_at=body), sig)
+
+    def attended(e_old: Any, e_new: Any) -> bool:
+        """Does any change-detecting handler's criterion (the presence of its field, now or in the last-handled state) match?"""
+        for h in changing:
+            f = parse_field(h["field"])
+            if not f or resolve_abs(e_new, f) is not ABSENT or (e_old is not None and resolve_abs(e_old, f) is not ABSENT):
+                return True
+        return False
+
+    def judge_calls(phase: str, e_old: Any, e_new: Any, rp: dict) -> bool:
+        """Exactly the handlers whose (field of the) essence changed were called, once, with exact kwargs."""
+        calls = [c for c in life.calls if c["phase"] == phase]
+        ok = True
+        creation = e_old is None
+        whole_differs = creation or not strict_eq(e_old, e_new)
+        whole = canon_items(K["diffs"].diff(e_old, e_new))
+        for h in changing:
+            f = parse_field(h["field"])
+            mine = [c for c in calls if c["id"] == h["id"]]
+            nv = resolve_abs(e_new, f)
+            if creation:
+                expected: bool | None = (h["deco"] == "create" and (not f or nv is not ABSENT)) or (h["deco"] == "field" and nv is not ABSENT)
+                if f and nv is None:
+                    expected = None                       # a null-valued field: present or not is the open finding F10's question
+            elif h["deco"] == "create":
+                expected = False
+            else:
+                expected = whole_differs and (not f or field_differs(e_old, e_new, f))
+            out.count("life_expected", f"{phase}: {h['deco']}{'(field)' if f else ''} -> {'either' if expected is None else 'called' if expected else 'not called'}")
+            if expected is not None and (len(mine) == 1) != expected or len(mine) > 1:
+                ov = None if creation else resolve_abs(e_old, f)
+                a, b = (None if ov is ABSENT else ov), (None if nv is ABSENT else nv)
+                if creation or ov is ABSENT or nv is ABSENT:
+                    sig = SIG_SELECT
+                elif len(mine) <= 1 and equiv_strict(a, b):
+                    sig = SIG_F10
+                elif len(mine) == 0 and f and equiv_py(a, b):
+                    sig = SIG_F12                         # the field handler's `old != new` is Python's
+                else:
+                    sig = SIG_SELECT
+                what = ("is called %d times" % len(mine)) if len(mine) > 1 else \
+                    "is NOT called although its %s changed" % ("field " + ".".join(f) if f else "object") if expected else \
+                    "is called although %s" % ("this is no creation" if h["deco"] == "create" and not creation else
+                                               "its %s did not change" % ("field " + ".".join(f) if f else "object"))
+                out.fail("oracle", f"{phase}: handler {h['id']} (@on.{h['deco']}, field={h['field']!r}) {what}",
+                         dict(rp, handler=h, calls=[c["id"] for c in calls], essence_old=e_old, essence_new=e_new), sig)
+                ok = False
+            for c in mine[:1]:
+                exp_old = None if creation else (py_resolve(e_old, f) if f else e_old)
+                exp_new = py_resolve(e_new, f) if f else e_new
+                crp = dict(rp, handler=h, call=c, essence_old=e_old, essence_new=e_new)
+                bad, sigk = None, SIG_KW
+                if not strict_eq(c["old"], exp_old) or not strict_eq(c["new"], exp_new):
+                    bad = "old/new are not the (field of the) last-handled / current essence"
+                elif not strict_eq(py_apply(c["diff"], c["old"]), c["new"]):
+                    bad = "diff does not lead from old to new"
+                    sigk = _sig_for(py_apply(c["diff"], c["old"]), c["new"], SIG_KW["shape"], SIG_KW["site"])
+                elif (not c["diff"]) != strict_eq(c["old"], c["new"]):
+                    bad = "diff empty iff unchanged"
+                    sigk = _sig_for(c["old"], c["new"], SIG_KW["shape"], SIG_KW["site"])
+                if bad:
+                    out.fail("oracle", f"{phase}: handler {h['id']} (@on.{h['deco']}, field={h['field']!r}, lifecycle "
+                                       f"{case['lifecycle']}) received wrong kwargs: {bad}", crp, sigk)
+                    ok = False
+                out.ask("kwargs diff of a handler vs. reduce of the whole diff (life)", ["C04.reduce", whole, f], c["diff"], crp)
+        return ok
+
+    def judge_rest(phase: str, st: dict, e_ref: Any, rp: dict) -> bool:
+        """What the finished cycle left behind: it came to rest, own writes are invisible, the stored state is the essence.
+        (No exemption for the open finding F8 here: the generated handler fields never cover `metadata…`, and every storage
+        cleans its own status field / annotation keys AFTER the handlers' fields are restored.)"""
+        body = st["body"]
+        res = essence_of(body)
+        written = [p for pj in st["patches"] for p in leaf_paths(pj)]
+        if res[0] != "ok" or not strict_eq(res[1], e_ref):
+            changed = changed_paths(e_ref, res[1]) if res[0] == "ok" else []
+            sig = SIG_OWNLOC if at_own_location(changed, [p for p in written if p]) else SIG_OWNVIS
+            out.fail("oracle", f"{phase}: the framework's own writes of the cycle changed the essence of the object "
+                               f"(changed at {['.'.join(c) for c in changed[:4]]})",
+                     dict(rp, patches=st["patches"][-4:], essence_before=e_ref, essence_after=res, body_at=body), sig)
+            return False
+        if not st["settled"]:
+            out.fail("oracle", f"{phase}: the handling does not come to rest: after {st['cycles']} cycles every patch still brings a "
+                               f"new patch (handling triggers itself)", dict(rp, patches=st["patches"][-3:], body_at=body), SIG_SETTLE)
+            return False
+        try:
+            fetched = fetched_of(body)
+        except (ValueError, AttributeError):
+            fetched = "unreadable"
+        if not strict_eq(fetched, e_ref):
+            a = fetched if fetched is not None else {}
+            sig = SIG_F10 if equiv_strict(a, e_ref) else SIG_F12 if fetched is not None and equiv_py(a, e_ref) else SIG_SETTLE
+            out.fail("oracle", f"{phase}: the handling is finished but the stored last-handled state is not the essence of the object: "
+                               f"the next event is a change again (handlers repeat / see a stale old)",
+                     dict(rp, patches=st["patches"][-4:], stored=fetched, essence=e_ref, body_at=body), sig)
+            return False
+        out.ask("diffbase.build + progress.clear (after the real cycles of a life)", ["C04.essence", mcfg, own_extras, body], res,
+                dict(rp, body_at=body))
+        return True
+
+    async def quiet(phase: str, body: dict, probe: str, e_ref: Any, rp: dict) -> dict | None:
+        """An event without an essential change: nobody is called, nothing is sent, the essence is the same."""
+        pb, probe = apply_probe(K, body, probe, own_extras)
+        out.count("life_probe", probe)
+        res = essence_of(pb)
+        if res[0] != "ok" or not strict_eq(res[1], e_ref):
+            if probe == "other-operator" and res[0] == "ok":
+                out.fail("oracle", f"{phase}: another Kopf-based operator's write changes the essence", dict(rp, probe=probe, body_at=pb,
+                         essence_before=e_ref, essence_after=res), {"site": "DiffBaseStorage.build", "shape": "another Kopf operator's write is visible"})
+            return None                                   # (system metadata / foreign status: the pure-level oracle's subject)
+        before = len(life.calls)
+        st = await life.settle(pb, phase, 3)
+        qrp = dict(rp, probe=probe, body_at=pb)
+        if st["raised"] is not None:
+            raised(phase, st["raised"], pb, qrp)
+            return None
+        called = [c["id"] for c in life.calls[before:]]
+        if called or st["patches"]:
+            out.fail("oracle", f"{phase}: an event without an essential change ({probe}) "
+                               + (f"calls {called}" if called else "sends a patch") + ": handling is triggered by a non-essential change",
+                     dict(qrp, called=called, patches=st["patches"], essence=e_ref), SIG_QUIET)
+            return None
+        return st["body"]
+
+    body0 = copy.deepcopy(case["body"])
+    rp = dict(replay)
+    if not wellformed_meta(body0):
+        out.count("life_outcome", "malformed metadata (not judged)")
+        return
+    e0 = essence_of(body0)
+    try:
+        stored0 = fetched_of(body0)
+    except tuple(ERRS) + (AttributeError,):
+        stored0 = "unreadable"
+    # ---- phase A: the object is seen for the first time -------------------------------------------------------
+    st = await life.settle(body0, "creation", limit)
+    if st["raised"] is not None:
+        raised("creation", st["raised"], body0, rp)
+        return
+    if e0[0] != "ok":
+        out.fail("oracle", "the reference essence cannot be built although the real cycle went through", dict(rp, essence=e0),
+                 {"site": "DiffBaseStorage.build", "shape": "build raises outside the processing cycle only"})
+        return
+    if stored0 is not None:
+        out.count("life_outcome", "the body carries a stored state from the start (not judged)")
+        return
+    ok = judge_calls("creation", None, e0[1], rp)
+    if not attended(None, e0[1]):
+        # no handler's criteria (here: the presence of its field) match the object: the operator is blind to it and stores nothing
+        out.count("life_outcome", "the object matches no handler (blind: nothing stored)")
+        if st["patches"]:
+            out.fail("oracle", "creation: the object matches no handler's criteria but the operator writes to it",
+                     dict(rp, patches=st["patches"]), {"site": "processing.process_resource_causes", "shape": "an unmatched object is written to"})
+        return
+    ok = judge_rest("creation", st, e0[1], rp) and ok
+    if not ok:
+        out.count("life_outcome", "failed in creation")
+        return
+    body = await quiet("quiet after creation", st["body"], case["probes"][0], e0[1], rp)
+    if body is None:
+        out.count("life_outcome", "ended at the first quiet probe")
+        return
+    # ---- phase C: somebody edits the object ------------------------------------------------------------------
+    body1 = apply_life_edit(body, case["edit"])
+    e1 = essence_of(body1)
+    st = await life.settle(body1, "update", limit)
+    if st["raised"] is not None:
+        raised("update", st["raised"], body1, rp)
+        return
+    if e1[0] != "ok":
+        out.fail("oracle", "the reference essence cannot be built although the real cycle went through", dict(rp, essence=e1, body_at=body1),
+                 {"site": "DiffBaseStorage.build", "shape": "build raises outside the processing cycle only"})
+        return
+    out.count("life_update", "essence unchanged" if strict_eq(e0[1], e1[1]) else
+              "bool<->number only" if equiv_py(e0[1], e1[1]) and not equiv_strict(e0[1], e1[1]) else
+              "null<->absent only" if equiv_strict(e0[1], e1[1]) else "changed")
+    ok = judge_calls("update", e0[1], e1[1], rp)
+    if not attended(e0[1], e1[1]):
+        out.count("life_outcome", "the edited object matches no handler (blind)")
+        return
+    ok = judge_rest("update", st, e1[1], rp) and ok
+    try:
+        now_stored = fetched_of(st["body"])
+    except (ValueError, AttributeError):
+        now_stored = "unreadable"
+    if LIFE_MODEL_TIE:
+        called_upd = {c["id"] for c in life.calls if c["phase"] == "update"}
+        whole_upd = [h for h in changing if h["deco"] == "update" and not h["field"]]
+        if whole_upd:
+            out.ask("cause of the event (life): model `detect` vs. the whole-object update handlers being called",
+                    ["C04.detect", e0[1], e1[1]], "update" if all(h["id"] in called_upd for h in whole_upd) else
+                    "noop" if not any(h["id"] in called_upd for h in whole_upd) else "mixed", rp)
+        for h in changing:
+            if h["deco"] in ("update", "field") and h["field"]:
+                out.ask("selection of a field handler (life): model `selected` vs. the handler being called",
+                        ["C04.selected", e0[1], e1[1], parse_field(h["field"])], h["id"] in called_upd, dict(rp, handler=h))
+        if now_stored != "unreadable":
+            out.ask("the last-handled state after the cycle (life): model `afterCycle` vs. what the real cycles stored",
+                    ["C04.after", e0[1], e1[1]], now_stored, rp)
+    if not ok:
+        out.count("life_outcome", "failed in update")
+        return
+    body = await quiet("quiet after update", st["body"], case["probes"][1], e1[1], rp)
+    out.count("life_outcome", "complete" if body is not None else "ended at the second quiet probe")
+    if life.calls:
+        out.keys.add(digest(["life", case["diffbase"], case["progress"], case["handlers"], case["lifecycle"], case["body"], case["edit"]]))
+    if len(out.samples) < 6 and life.calls and len(leanio.canon(replay)) < 2500 and not any(s.get("kind") == "life" for s in out.samples):
+        out.samples.append(dict(replay, calls=[{k: c[k] for k in ("id", "phase", "cycle")} for c in life.calls]))
+
+
+# ------------------------------------------------------------------------------------------------
 # shards, run, search, replay
+
+def guarded(out: Out, kind: str, case: dict, fn: Any) -> None:
+    """Run one evaluation; an exception raised INSIDE kopf's sources is the code's verdict on that input (an oracle failure
+    with the input as replay), never a crash of the check; anything else is a harness error and is re-raised."""
+    try:
+        fn()
+    except Exception as ex:  # noqa: BLE001
+        frame = kopf_frame(ex)
+        if frame is None:
+            raise
+        out.count("raised_in_kopf", f"{kind}: {type(ex).__name__} in {frame}")
+        out.fail("oracle", f"the real code raised {type(ex).__name__} in {frame} ({str(ex)[:120]}): the object cannot be processed",
+                 dict(case, kind=kind), {"site": frame, "shape": f"raises {type(ex).__name__} on a generated {kind} case"})
+
 
 def run_shard(args: tuple) -> Out:
     seed, n_pairs, n_ess, oracle_only = args
@@ -1651,14 +2291,18 @@ def run_shard(args: tuple) -> Out:
     out = Out()
     for _ in range(n_pairs):
         case, tags = gen_diff_case(rng)
-        eval_diff_case(K, case, out, tags)
+        guarded(out, "diff", case, lambda: eval_diff_case(K, case, out, tags))
     for _ in range(n_ess):
-        eval_ess_case(K, gen_ess_case(rng), out)
+        ecase = gen_ess_case(rng)
+        guarded(out, "essence", ecase, lambda: eval_ess_case(K, ecase, out))
     for _ in range(max(4, int(n_ess * MULTI_RATIO))):
-        eval_ess_case(K, gen_multi_case(rng), out)
+        ecase = gen_multi_case(rng)
+        guarded(out, "essence", ecase, lambda: eval_ess_case(K, ecase, out))
     for _ in range(max(1, n_pairs // 25)):
-        eval_seq_case(K, gen_seq_case(rng), out)
+        scase = gen_seq_case(rng)
+        guarded(out, "sequence", scase, lambda: eval_seq_case(K, scase, out))
     eval_loop_cases(K, [gen_loop_case(rng) for _ in range(max(2, n_pairs // 12))], out)
+    eval_life_cases(K, [gen_life_case(rng) for _ in range(max(4, n_pairs // LIFE_PER_PAIRS))], out)
     if not oracle_only:
         settle(out)
     out.requests, out.expect = [], []
@@ -1744,14 +2388,18 @@ def check_constants(ctx: Ctx) -> None:
 
 def eval_case(K: dict, case: dict, out: Out) -> None:
     if case.get("kind") == "diff":
-        eval_diff_case(K, {"a": case["a"], "b": case["b"], "path": case.get("path", [])}, out, ["corpus"])
+        dcase = {"a": case["a"], "b": case["b"], "path": case.get("path", [])}
+        guarded(out, "diff", dcase, lambda: eval_diff_case(K, dcase, out, ["corpus"]))
     elif case.get("kind") == "essence":
-        eval_ess_case(K, {"diffbase": case["diffbase"], "progress": case["progress"], "extra": case.get("extra", []),
-                          "body": case["body"], "wseed": case.get("wseed", 0), "writes": case.get("writes")}, out)
+        ecase = {"diffbase": case["diffbase"], "progress": case["progress"], "extra": case.get("extra", []),
+                 "body": case["body"], "wseed": case.get("wseed", 0), "writes": case.get("writes")}
+        guarded(out, "essence", ecase, lambda: eval_ess_case(K, ecase, out))
     elif case.get("kind") == "sequence":
-        eval_seq_case(K, case, out)
+        guarded(out, "sequence", case, lambda: eval_seq_case(K, case, out))
     elif case.get("kind") == "cycle":
         eval_loop_cases(K, [case], out)
+    elif case.get("kind") == "life":
+        eval_life_cases(K, [case], out)
     else:
         raise ValueError(f"unknown case kind {case.get('kind')!r}")
 
@@ -1795,7 +2443,7 @@ def search(ctx: Ctx, broken: list) -> None:
     out = Out()
     for b in broken:
         inp = b.replay.get("input") if isinstance(b.replay, dict) else None
-        if isinstance(inp, dict) and inp.get("kind") in ("diff", "essence", "sequence", "cycle"):
+        if isinstance(inp, dict) and inp.get("kind") in CASE_KINDS:
             try:
                 eval_case(K, inp, out)
             except Exception:  # noqa: BLE001
@@ -1822,7 +2470,7 @@ def replay(ctx: Ctx, data: dict) -> None:
         print("broken obligation(s):", sorted(set(data.get("what", []))))
     if isinstance(case, dict) and "input" in case and "kind" not in case:
         case = case["input"]
-    if not isinstance(case, dict) or case.get("kind") not in ("diff", "essence", "sequence", "cycle"):
+    if not isinstance(case, dict) or case.get("kind") not in CASE_KINDS:
         print("this replay file names a broken proof/tie obligation without a concrete input; re-run ./check C04 quick")
         ctx.tie_fail("broken obligation without input", data)
         return
